@@ -26,7 +26,7 @@ META = {
     "assumptions": ["equality of results is established twice: identity of the EUF shadow terms (same uninterpreted operations on the same operands in the same order: bit-for-bit under any arithmetic) and solver equality over the reals",
                     "alias tracking: an in-place operator or indexed store whose target shares storage with a harness-supplied input is reported as a mutation of the input"],
 }
-LEDGER = {"quick": 955, "thorough": 1200}
+LEDGER = {"quick": 1185, "thorough": 1200}
 
 
 def _cells(x):
@@ -496,7 +496,7 @@ def jobs(tier, seed):
            ("texit", "job_taus", {"N": 2, "which": "exit", "tier": tier}), ("tenergy", "job_taus", {"N": 2, "which": "energy", "tier": tier}),
            ("altdec", "job_eas", {"N": 3, "which": "altDec", "tier": tier}), ("eas", "job_eas", {"N": 3, "which": "call", "tier": tier}),
            ("snr", "job_snr", {"N": 3, "tier": tier}), ("too", "job_too", {"N": 3, "tier": tier}), ("tooframes", "job_tooframes", {"N": 3, "tier": tier})]
-    out += [(f"khist_{h}", "job_kernel_history", {"helper": h, "K": (1 if h == "valid_arrays" else 2) if tier == "quick" else (2 if h == "valid_arrays" else 3), "tier": tier}) for h in _KERNEL_HELPERS]
+    out += [(f"khist_{h}", "job_kernel_history", {"helper": h, "K": 2, "tier": tier}) for h in _KERNEL_HELPERS]
     return out
 
 
@@ -712,6 +712,6 @@ def _real_order_check(fn, cols):
 
 MANIFEST_ENTRY = {
     "level_text": "For each vectorised stage the real source is executed symbolically on N=3 (some N=2) symbolic events with symbolic per-event random numbers: all permutations, both split points and a repeated call are compared with the whole-batch result twice -- by identity of the EUF shadow terms (every arithmetic primitive uninterpreted, no constant folding: bit-for-bit agreement under any arithmetic) and by a z3 equality proof over the reals -- on every feasible mask pattern; input arrays carry alias tags so that any in-place operator or indexed store reaching a caller-supplied array is reported.",
-    "level_note": "np.nditer is a one-chunk stub: batches larger than the 8192-element iterator buffer are NOT covered. Interpolators and CphotAng are stubs (reference interpolation / per-event uninterpreted function). Stages with internal randomness that cannot be attached to events (EASRadio, power-law spectrum) are covered for structure in C20/C12 only.",
+    "level_note": "Kernel-history jobs: the real bodies of nine CphotAng helpers (aerosol_model with a symbolic table index included; numeric primitives uninterpreted) are called on one object for two different showers and compared with a fresh object, attributes unchanged (valid_arrays, grammage, ozone_losses, sphoton_yeild, photon_sum and the compiled stepping are not covered by it). The optical stage is called with a location-dependent uninterpreted cloud model and a kernel stub of generic arity that zips its columns like the real kernel; EAS.altDec includes u = 0. np.nditer is a one-chunk stub: batches larger than the 8192-element iterator buffer are NOT covered. Interpolators and CphotAng are stubs (reference interpolation / per-event uninterpreted function). Stages with internal randomness that cannot be attached to events (EASRadio, power-law spectrum) are covered for structure in C20/C12 only.",
     "technique": "symbolic execution of the real NumPy source with EUF shadow terms (term identity) + z3 qfnra-nlsat equality, alias tracking",
 }
